@@ -6,6 +6,7 @@ import (
 	"math"
 	"reflect"
 	"strconv"
+	"strings"
 	"unicode/utf16"
 )
 
@@ -966,6 +967,20 @@ func stringToReflectValue(value string, kind reflect.Kind) (reflect.Value, error
 
 	// FIXME This should end up as a TypeError?
 	panic(fmt.Errorf("invalid conversion of %q to reflect.Kind: %v", value, kind))
+}
+
+// conversionException turns an error returned by toReflectValue or
+// stringToReflectValue into an exception a script can catch, keeping the
+// "RangeError: " / "TypeError: " class the conversion routines put in the text.
+func conversionException(err error) *exception {
+	name, message := "TypeError", err.Error()
+	for _, class := range []string{"RangeError", "TypeError"} {
+		if strings.HasPrefix(message, class+": ") {
+			name, message = class, message[len(class)+2:]
+			break
+		}
+	}
+	return &exception{value: newError(nil, name, 0, "%s", message)}
 }
 
 // MarshalJSON implements json.Marshaller.
